@@ -9,7 +9,7 @@ CLAIMS = {
         "design_ref": "DESIGN.md section 4 C01",
     },
     "C02": {
-        "text": "Partial. Discharged for all inputs: viewBox->OT-SVG affine (y down, baseline at 0, centred, user transform), <use> creation (href, x/y iff non-zero, residual matrix; lemma L-use: M o T(x,y) = reuse affine), gradient coordinate mapping (linear: three points; radial: centres mapped, radii scaled by |s| and never negative, non-uniform affines rejected). Bounded: generated source sets built as picosvg/picosvgz fonts; exactly one element glyph<ID> in the covering document, rendered by a small SVG evaluator and compared by sampling with the source specification; document structure (sorted disjoint ranges, unique ids, resolving hrefs, no cross-glyph references). Also discharged: _apply_paint (a transform paint's own affine is applied before the pending one; gradients get the pending transform conjugated by the viewBox map; unsupported paints raise), _apply_solid_paint (fill omitted exactly for plain black, opacity iff translucent); finite scope: _apply_gradient_paint (cache invariant - every cached id was defined with its key - and the fill refers to the normal form of this paint, gradients abstracted to ghost identities).",
+        "text": "Partial. Discharged for all inputs: viewBox->OT-SVG affine (y down, baseline at 0, centred, user transform), <use> creation (href, x/y iff non-zero, residual matrix; lemma L-use: M o T(x,y) = reuse affine), gradient coordinate mapping (linear: three points; radial: centres mapped, radii scaled by the similarity factor sqrt(a^2+b^2) and never negative, anything but a similarity - uniform scale, rotation, reflection, translation - rejected). Bounded: generated source sets built as picosvg/picosvgz fonts; exactly one element glyph<ID> in the covering document, rendered by a small SVG evaluator and compared by sampling with the source specification; document structure (sorted disjoint ranges, unique ids, resolving hrefs, no cross-glyph references). Also discharged: _apply_paint (a transform paint's own affine is applied before the pending one; gradients get the pending transform conjugated by the viewBox map; unsupported paints raise), _apply_solid_paint (fill omitted exactly for plain black, opacity iff translucent); finite scope: _apply_gradient_paint (cache invariant - every cached id was defined with its key - and the fill refers to the normal form of this paint, gradients abstracted to ghost identities).",
         "note": "lxml document assembly, reuse grouping and glyph-order reshuffle are bounded-tier only; _ntos/_svg_matrix string formatting abstracted as functions of the number/affine; SVG rendering semantics as implemented in contracts/e2e.py; A-real.",
         "design_ref": "DESIGN.md section 4 C02",
     },
@@ -29,7 +29,7 @@ CLAIMS = {
         "design_ref": "DESIGN.md section 4 C07",
     },
     "C17": {
-        "text": "Partial. Discharged for all inputs: config.validate rejects exactly the invalid metric/version/quantisation values and variable bitmap/OT-SVG configurations; palette index conflicts raise (finite scope); out-of-range gradient coordinates raise. Bounded: duplicate glyph names / codepoint sequences, palette conflicts, unsupported fills, unknown spreadMethod, oversize bitmaps, missing or unparsable sources, duplicate basenames and differing master source sets all end in an exception and no font; write_font.main writes only after _generate_color_font returned.",
+        "text": "Partial. Discharged for all inputs: config.validate rejects exactly the invalid metric/version/quantisation values and variable bitmap/OT-SVG configurations; palette index conflicts raise (finite scope); out-of-range gradient coordinates raise. Bounded: duplicate glyph names / codepoint sequences, palette conflicts, unsupported fills, unknown spreadMethod, oversize bitmaps, missing or unparsable sources, duplicate basenames, differing master source sets and command-line inputs the driver does not recognise (through the real CLI) all end in an exception and no font (kinds stratified by case index); write_font.main writes only after _generate_color_font returned.",
         "note": "that ninja stops and the CLI exits non-zero when a step fails (subprocess.run(check=True)) is assumed.",
         "design_ref": "DESIGN.md section 4 C17",
     },
@@ -84,8 +84,8 @@ CLAIMS = {
         "design_ref": "DESIGN.md section 4 C13",
     },
     "C14": {
-        "text": "ppem, pixel advance, horizontal centring, vertical placement within one pixel (two when nudged; for em <= 2*upem), the int8 nudge, format-17 record size and the contiguous offset table (loop invariant) are discharged for all inputs from the current source. Finite scope (1-2 glyphs): make_sbix_table / _make_cbdt_strike raise when bitmap heights differ and otherwise give the strike the ppem of every glyph in it.",
-        "note": "A-real; precondition bitmap height == bitmap_resolution (what the driver's resvg step produces); em > 2*upem is only covered by the general clause; fontTools CBDT/sbix writers and PIL's PNG size are assumed.",
+        "text": "ppem, pixel advance, horizontal centring, vertical placement within one pixel (two when nudged; for em <= 2*upem), the int8 nudge, format-17 record size and the contiguous offset table (loop invariant) are discharged for all inputs from the current source. The bitmap's own pixel height is used throughout (no assumption that it equals bitmap_resolution); for sbix no 8-bit limit may reject a build. Finite scope (1-2 glyphs): make_sbix_table / _make_cbdt_strike raise when bitmap heights differ and otherwise give the strike the ppem of every glyph in it, hold one record per glyph under its name with its own image at the offsets computed from that image, and (sbix) put bottom and top edge within one pixel of the scaled em box.",
+        "note": "A-real; em > 2*upem is only covered by the general clause; fontTools CBDT/sbix writers and PIL's PNG size are assumed.",
         "design_ref": "DESIGN.md section 4 C14",
     },
     "C15": {
